@@ -178,7 +178,7 @@ pub fn render(g: &G, root: bool, out: &mut String) {
                     out.push_str(&format!(" xmlns=\"{}\"", d));
                 }
             } else if let Some(u) = ns {
-                out.push_str(&format!(" xmlns:p=\"{}\"", u));
+                out.push_str(&format!(" xmlns:p=\"{}\"", u.replace('&', "&amp;")));
             }
             for (k, v) in attrs {
                 // `v` is the value the attribute denotes; written with the references it needs
@@ -750,7 +750,7 @@ pub fn gen_case(seed: u64, id: u64) -> Case {
     let mut special_fail = false;
     let mut doc_target = false;
     let mut zoo = false;
-    if sibling_family || rng.pct(12) {
+    if sibling_family || rng.pct(24) {
         match if sibling_family { 4 } else { [0usize, 1, 2, 3, 6, 7][rng.below(6)] } {
             7 => {
                 // every core function and operator once, with arguments at the edges: never a crash (O2);
@@ -819,6 +819,16 @@ pub fn gen_case(seed: u64, id: u64) -> Case {
                 scalar = Some(r);
                 special_fail = tool == "xe";
                 what = "substring() at the edges".into();
+                if rng.pct(30) {
+                    // a number is printed the way string() converts it (XPath 1.0 section 4.2)
+                    let (e, v) = *rng.pick(&[
+                        ("1 div 0", "Infinity"), ("-1 div 0", "-Infinity"), ("0 div 0", "NaN"), ("1 div 2", "0.5"), ("3", "3"), ("2 * 3", "6"),
+                        ("-0", "0"), ("7 mod 4", "3"), ("1.50", "1.5"), ("-(1 div 0)", "-Infinity"), ("number('x')", "NaN"), ("0.5 + 0.25", "0.75"),
+                    ]);
+                    expr = e.to_string();
+                    scalar = Some(v.to_string());
+                    what = "a number result".into();
+                }
             }
             4 | 5 => {
                 // one step along an axis from a single node obtained by a filter expression:
@@ -1024,7 +1034,7 @@ pub fn gen_case(seed: u64, id: u64) -> Case {
                     // namespace declarations written in the value, with names that use them
                     if g.rng.pct(35) {
                         if let G::El { name, kids, ns, .. } = &mut e {
-                            *ns = Some(g.rng.ps(&["urn:p2", "urn:v", "urn:p"]).to_string());
+                            *ns = Some(g.rng.ps(&["urn:p2", "urn:v", "urn:p", "urn:a&b"]).to_string());
                             match g.rng.below(3) {
                                 0 => *name = "p:d".to_string(),
                                 1 => kids.push(G::El { name: "p:d".into(), attrs: vec![], kids: vec![], ns: None }),
@@ -1201,8 +1211,9 @@ pub fn gen_case(seed: u64, id: u64) -> Case {
             expect_kind = "fail".into();
             what = "xe: character data as child of the document".into();
         } else {
-            // no element or several: what is left is not a document; not judged beyond O1/O2
-            expect_kind = "any".into();
+            // no element or several: what would be left is not a document (its output could not be parsed back)
+            expect_kind = "fail".into();
+            what = "xe: the replacement leaves the document without exactly one document element".into();
         }
     } else if tool == "xq" {
         if let Some(s) = scalar {
